@@ -289,6 +289,7 @@ func rowsString(rows []flatRow, ordered bool) string {
 }
 
 type answer struct {
+	stats  *common.QueryStats
 	fields []string // "name (expr)"
 	names  []string
 	rows   []flatRow
